@@ -4,6 +4,7 @@ Model: `Model/Concat.lean` (row-wise horzcat then vertcat over column-major data
 spec: `Spec/Concat.lean` (`litGet`: the element of the covering block).
 -/
 import MechVerif.Lemmas.Concat
+import MechVerif.Lemmas.ConcatKernels
 namespace MechVerif.Concat
 open MechVerif.Num MechVerif.Mat
 
@@ -142,10 +143,122 @@ theorem C11_vertcat_spec (a b r : Mat α) (ha : Mat.wf' a) (hb : Mat.wf' b) (h :
     r.get? i j = if i < a.rows then a.get? i j else b.get? (i - a.rows) j :=
   (vcat2_get a b r ha hb h i j hi hj).2.2.2
 
+/-! ### the kernels as written
+
+`Gen/ConcatKernels.lean` is regenerated from the source on every run (`tools/extract_concat.py`): the four copy
+routines of `copy_mat!` as Lean definitions, and the dispatch / `solve` table of horzcat.rs and vertcat.rs for the
+default features.  The theorems below are about those generated objects. -/
+section asWritten
+open MechVerif.ConcatIR MechVerif.Gen.ConcatKernels
+
+/-- `copy_into`, `copy_into_v`, `copy_into_r` as written: the elements of the source, in storage order, over the
+    positions `offset, offset+1, …` of the destination, the number of elements returned; an index panic exactly when
+    the source does not fit — for every source, destination and offset. -/
+theorem C11_copy_into_as_written (src dst : Mat α) (off : Nat) (hs : Mat.wf' src) :
+    copy_into src dst off = copyLin src dst off ∧ copy_into_v src dst off = copyLin src dst off ∧
+    copy_into_r src dst off = copyLin src dst off :=
+  ⟨copy_into_eq src dst off hs, copy_into_v_eq src dst off hs, copy_into_r_eq src dst off hs⟩
+
+/-- `copy_into_row_major` as written — the flat loop whose position advances by
+    `((ix + 1) % src_rows == 0) as usize * stride + 1` with `stride = dest_rows - src_rows` — is the column-by-column
+    copy: column `c` of the source over the positions `offset + c·dest_rows, …`; the height of the source returned. -/
+theorem C11_copy_into_row_major_as_written (src dst : Mat α) (off : Nat) (hs : Mat.wf' src) :
+    copy_into_row_major src dst off = copyRowMajor src dst off :=
+  copy_into_row_major_eq src dst off hs
+
+/-- what the column-by-column copy does to the elements: the source sits as a block with its top left corner in
+    row `o` of the first column, everything else is untouched. -/
+theorem C11_copy_into_row_major_places_block (src dst : Mat α) (o : Nat) (hs : Mat.wf' src) (hd : Mat.wf' dst)
+    (ho : o + src.rows ≤ dst.rows) (hC : src.cols ≤ dst.cols) :
+    ∃ out, copy_into_row_major src dst o = .ok (out, src.rows) ∧ out.rows = dst.rows ∧ out.cols = dst.cols ∧
+      ∀ i j, i < dst.rows → j < dst.cols →
+        out.get? i j = if o ≤ i ∧ i < o + src.rows ∧ j < src.cols then src.get? (i - o) j else dst.get? i j := by
+  obtain ⟨out, h, hr, hc, _, hg⟩ := copyRowMajor_spec src dst o hs hd ho hC
+  exact ⟨out, by rw [copy_into_row_major_eq src dst o hs]; exact h, hr, hc, hg⟩
+
+/-- `impl_horzcat_arms!` and the `solve` of the struct it picks, as written, run with the copy routines as written:
+    for any number of blocks (scalars, vectors, matrices) of one height the result is the model's `hcatAll`. -/
+theorem C11_horzcat_as_written (d : α) (a : Operand α) (as : List (Operand α))
+    (hwf : ∀ x ∈ a :: as, Mat.wf' (blockOf x)) (hrows : ∀ x ∈ as, (blockOf x).rows = (blockOf a).rows) :
+    evalCat impl horzcat solves d (a :: as) = hcatAll (blockOf a) (as.map blockOf) := by
+  rw [C11_concat_table_as_written.2.2.1, C11_concat_table_as_written.2.1]
+  exact horzcat_as_written impl (fun r m dst off hm => gen_impl_eq r m dst off hm) d a as hwf hrows
+
+/-- `impl_vertcat_arms!` and `solve`, as written: for any number of matrix blocks of one width the result is the
+    model's `vcatAll`. -/
+theorem C11_vertcat_as_written (d : α) (a : Mat α) (as : List (Mat α))
+    (hwf : ∀ e ∈ a :: as, Mat.wf' e) (hcols : ∀ e ∈ as, e.cols = a.cols) :
+    evalCat impl vertcat solves d ((a :: as).map .mat) = vcatAll a as := by
+  rw [C11_concat_table_as_written.2.2.2, C11_concat_table_as_written.2.1]
+  exact vertcat_as_written impl (fun r m dst off hm => gen_impl_eq r m dst off hm) d a as hwf hcols
+
+/-- so the characterisation of the two kernels holds for the code as written: side by side … -/
+theorem C11_horzcat_spec_as_written (d : α) (a : Operand α) (as : List (Operand α)) (r : Mat α)
+    (hwf : ∀ x ∈ a :: as, Mat.wf' (blockOf x)) (hrows : ∀ x ∈ as, (blockOf x).rows = (blockOf a).rows)
+    (h : evalCat impl horzcat solves d (a :: as) = .ok r) :
+    Mat.wf' r ∧ r.rows = (blockOf a).rows ∧ r.cols = sumCols ((a :: as).map blockOf) ∧
+    ∀ i j, i < r.rows → j < r.cols → r.get? i j = hGet ((a :: as).map blockOf) i j := by
+  rw [C11_horzcat_as_written d a as hwf hrows] at h
+  obtain ⟨w, hr, hc, _, hg⟩ := hcatAll_spec (as.map blockOf) (blockOf a) r (hwf a List.mem_cons_self)
+    (fun b hb => by obtain ⟨x, hx, rfl⟩ := List.mem_map.mp hb; exact hwf x (List.mem_cons_of_mem _ hx)) h
+  exact ⟨w, hr, hc, hg⟩
+
+/-- … and stacked. -/
+theorem C11_vertcat_spec_as_written (d : α) (a : Mat α) (as : List (Mat α)) (r : Mat α)
+    (hwf : ∀ e ∈ a :: as, Mat.wf' e) (hcols : ∀ e ∈ as, e.cols = a.cols)
+    (h : evalCat impl vertcat solves d ((a :: as).map .mat) = .ok r) :
+    Mat.wf' r ∧ r.cols = a.cols ∧ r.rows = sumRows (a :: as) ∧
+    ∀ i j, i < r.rows → j < r.cols → r.get? i j = vGet (a :: as) i j := by
+  rw [C11_vertcat_as_written d a as hwf hcols] at h
+  obtain ⟨w, hc, hr, _, hg⟩ := vcatAll_spec as a r (hwf a List.mem_cons_self)
+    (fun b hb => hwf b (List.mem_cons_of_mem _ hb)) h
+  exact ⟨w, hc, hr, hg⟩
+
+/-- a literal with block entries, evaluated the way `matrix()` / `matrix_row()` do it (heights checked, `MatrixHorzCat`
+    per row, widths checked, a single row returned as it is, `MatrixVertCat` otherwise) with the dispatch, `solve` and
+    copy routines as written, is the model's `matrixLit` — for every number of rows and blocks, errors included. -/
+theorem C11_matrix_literal_as_written (d : α) (rows : List (List (Operand α)))
+    (hwf : ∀ row ∈ rows, ∀ x ∈ row, Mat.wf' (blockOf x)) :
+    evalLit impl horzcat vertcat solves d rows = matrixLit (rows.map (·.map blockOf)) := by
+  rw [C11_concat_table_as_written.2.2.1, C11_concat_table_as_written.2.2.2, C11_concat_table_as_written.2.1]
+  exact evalLit_eq impl (fun r m dst off hm => gen_impl_eq r m dst off hm) d rows hwf
+
+/-- hence the block-matrix theorem holds for the kernels as written. -/
+theorem C11_matrix_literal_eq_block_as_written (d : α) (rows : List (List (Operand α))) (r : Mat α)
+    (hwf : ∀ row ∈ rows, ∀ x ∈ row, Mat.wf' (blockOf x))
+    (h : evalLit impl horzcat vertcat solves d rows = .ok r) :
+    Mat.wf' r ∧ ∀ i j, i < r.rows → j < r.cols → r.get? i j = litGet (rows.map (·.map blockOf)) i j := by
+  rw [C11_matrix_literal_as_written d rows hwf] at h
+  exact C11_matrix_literal_eq_block _ r (by
+    intro row hrow b hb
+    obtain ⟨r', hr', rfl⟩ := List.mem_map.mp hrow
+    obtain ⟨x, hx, rfl⟩ := List.mem_map.mp hb
+    exact hwf r' hr' x hx) h
+
+end asWritten
+
 /-! ### non-vacuity -/
 example : matrixLit [[(⟨2, 2, [1, 3, 2, 4]⟩ : Mat Nat), ⟨2, 1, [5, 6]⟩], [⟨1, 3, [7, 8, 9]⟩]]
     = .ok ⟨3, 3, [1, 3, 7, 2, 4, 8, 5, 6, 9]⟩ := by decide
 example : matrixLit [[(⟨2, 2, [1, 3, 2, 4]⟩ : Mat Nat), ⟨1, 2, [5, 6]⟩]] = .error .dim := by decide
 example : litGet [[(⟨2, 2, [1, 3, 2, 4]⟩ : Mat Nat), ⟨2, 1, [5, 6]⟩], [⟨1, 3, [7, 8, 9]⟩]] 2 1 = some 8 := by decide
+-- the kernels as written, run: a 2×2 block next to a 2×1 block; a row vector under a 2×3 matrix; a scalar between vectors
+open MechVerif.ConcatIR MechVerif.Gen.ConcatKernels in
+example : evalCat impl horzcat solves 0 [.mat (⟨2, 2, [1, 3, 2, 4]⟩ : Mat Nat), .mat ⟨2, 1, [5, 6]⟩]
+    = .ok ⟨2, 3, [1, 3, 2, 4, 5, 6]⟩ := by decide
+open MechVerif.ConcatIR MechVerif.Gen.ConcatKernels in
+example : evalCat impl vertcat solves 0 [.mat (⟨2, 3, [1, 3, 2, 4, 5, 6]⟩ : Mat Nat), .mat ⟨1, 3, [7, 8, 9]⟩]
+    = .ok ⟨3, 3, [1, 3, 7, 2, 4, 8, 5, 6, 9]⟩ := by decide
+open MechVerif.ConcatIR MechVerif.Gen.ConcatKernels in
+example : evalCat impl horzcat solves 0 [.mat (⟨1, 2, [1, 2]⟩ : Mat Nat), .scalar 3, .mat ⟨1, 1, [4]⟩]
+    = .ok ⟨1, 4, [1, 2, 3, 4]⟩ := by decide
+open MechVerif.ConcatIR MechVerif.Gen.ConcatKernels in
+example : evalLit impl horzcat vertcat solves 0
+    [[.mat (⟨2, 2, [1, 3, 2, 4]⟩ : Mat Nat), .mat ⟨2, 1, [5, 6]⟩], [.scalar 7, .mat ⟨1, 2, [8, 9]⟩]]
+    = .ok ⟨3, 3, [1, 3, 7, 2, 4, 8, 5, 6, 9]⟩ := by decide
+open MechVerif.ConcatIR MechVerif.Gen.ConcatKernels in
+example : copy_into_row_major (⟨1, 2, [7, 8]⟩ : Mat Nat) ⟨2, 2, [1, 0, 2, 0]⟩ 1 = .ok (⟨2, 2, [1, 7, 2, 8]⟩, 1) := by decide
+open MechVerif.ConcatIR MechVerif.Gen.ConcatKernels in
+example : copy_into_row_major (⟨3, 1, [7, 8, 9]⟩ : Mat Nat) ⟨2, 2, [1, 0, 2, 0]⟩ 0 = .error .overflow := by decide
 
 end MechVerif.Concat
